@@ -459,7 +459,13 @@ class _FilePersistence(_ConcretePersistence):
 
     def _persists_data_point_in_open_file(self, data_point: DataPoint):
         run_id_id = self._ensure_run_id_is_persisted(data_point.run_id)
-        for measurement in data_point.get_measurements():
+        # The loader takes the total for the last line of a data point. Adapters may
+        # report it earlier (e.g. Multivariate with counted data points): what followed
+        # it in the file was read as the start of the next data point, and the next
+        # invocation of the run then made every later session fail with a UIError.
+        measurements = data_point.get_measurements()
+        for measurement in ([m for m in measurements if not m.is_total()]
+                            + [m for m in measurements if m.is_total()]):
             line = self._SEP.join(measurement.as_str_list(run_id_id))
             self._file.write(line + "\n") # type: ignore
 
